@@ -6,7 +6,7 @@ Require Import Cirbo.Model.ArithSub Cirbo.Model.ArithSum2 Cirbo.Model.ArithSumN 
   Cirbo.Model.ArithGen.
 Require Import Cirbo.Proofs.DictFacts Cirbo.Proofs.BuilderFacts Cirbo.Proofs.ArithFacts
   Cirbo.Proofs.ArithGenFacts Cirbo.Proofs.ArithSumCells Cirbo.Proofs.ArithSumNFacts
-  Cirbo.Proofs.ArithSumTopFacts Cirbo.Proofs.ArithSumWFacts.
+  Cirbo.Proofs.ArithSumTopFacts Cirbo.Proofs.ArithSumWFacts Cirbo.Proofs.ArithSumWCount.
 Open Scope Z_scope.
 
 Lemma add_inputs_gates ls : forall c c',
@@ -65,7 +65,11 @@ Theorem generate_sum_weighted_bits_efficient_correct fresh k0 ins weights basis 
   generate_sum_weighted_bits_efficient fresh k0 ins weights basis = Ok c -> length weights = length ins ->
   exists b, resolve_basis basis = Ok b /\
     inputs c = ins /\ only_basis (t_of b) c /\
-    (b = AIG -> (length (gates c) + 3 * length (outputs c) <= 8 * length ins)%nat) /\
+    (exists g, length (gates c) = (length ins + g)%nat /\
+               match b with
+               | AIG => (g + 3 * length (outputs c) <= 7 * length ins)%nat
+               | XAIG => (g + 2 * length (outputs c) <= 5 * length ins)%nat
+               end) /\
     exists res, outputs c = map snd res /\ incr res /\
       forall asg bs, assigns asg ins bs ->
         exists rv, bvals c asg (outputs c) rv /\ wvalue (map fst res) rv = wvalue weights bs.
@@ -73,10 +77,15 @@ Proof.
   intros H Lw. apply gen_set_outputs_inv in H as (c0 & r & s' & H0 & Hr & G & I & O).
   pose proof H0 as H0'. apply circuit_with_inputs_spec in H0 as (I0 & _ & V0).
   apply run_bind_inv in Hr as (res & s1 & Hr & Hret). apply run_ret_inv in Hret as (-> & ->).
+  pose proof Hr as Hr0.
   apply add_sum_n_weighted_bits_correct in Hr as (b & Hb & Hx & I1 & _ & (g & A & Bd) & Inc & V). cbn [bc] in *.
   destruct (only_basis_intro _ _ _ _ _ _ H0' A G) as (OB & Lg).
   exists b. split; [exact Hb|]. split; [congruence|]. split; [exact OB|]. split.
-  - intros E. specialize (Bd E). unfold witem in *. rewrite Lg, O, map_length. rewrite combine_length in Bd. lia.
+  - exists g. split; [exact Lg|]. rewrite O, map_length. destruct b.
+    + destruct (add_sum_n_weighted_bits_xaig_count _ _ _ _ _ _ Hr0 Hb) as (g' & A' & B'). cbn [bc] in *.
+      assert (g = g') as -> by (apply adds_size in A; apply adds_size in A'; lia).
+      unfold witem in *. rewrite combine_length in B'. lia.
+    + specialize (Bd eq_refl). unfold witem in *. rewrite combine_length in Bd. lia.
   - exists res. split; [exact O|]. split; [exact Inc|].
     intros asg bs Ha. destruct (V _ (ext_refl _) asg bs) as (rv & Vr & E).
     { rewrite map_snd_combine by exact Lw. eapply bvals_ext; [exact Hx|apply V0, Ha]. }
